@@ -312,6 +312,38 @@ pub fn main(tier: Tier) -> ! {
     run.add(c);
     run.bound_done(format!("all XML token strings of <= {xl} tokens over {} tokens ({wf} accepted documents)", xtoks.len()));
 
+    // ---------------------------------------------------------- container sizes around the length encodings and buffer limits
+    // (CBOR encodes lengths in 0, 1, 2, 4 bytes; readers pre-allocate with caps; texts grow past buffer sizes)
+    let sizes: Vec<i64> = if run.quick() { vec![0, 1, 23, 24, 25, 255, 256, 257, 1023, 1024, 1025, 4097] } else { vec![0, 1, 23, 24, 25, 255, 256, 257, 1023, 1024, 1025, 4095, 4096, 4097, 65535, 65536, 65537, 100000] };
+    let shapes = [
+        ("array of integers", "[range($n)]"),
+        ("array of strings", "[range($n) | tostring]"),
+        ("object", "[range($n) | {key: \"k\\(.)\", value: .}] | from_entries"),
+        ("nested", "{a: [range($n)], b: {c: [range($n) | [.]]}}"),
+        ("string of length n", "[range($n) | \"a\"] | add // \"\""),
+        ("byte string of length n", "[range($n) | \"a\"] | add // \"\" | tobytes"),
+    ];
+    let trips = [("cbor", "tocbor | fromcbor"), ("yaml", "toyaml | fromyaml"), ("json", "tojson | fromjson"), ("toml", "{v: .} | totoml | fromtoml | .v")];
+    let mut c = Counts::default();
+    for (sname, shape) in shapes {
+        for (fname, trip) in trips {
+            if fname == "toml" && sname.starts_with("byte") || fname != "cbor" && sname.starts_with("byte") {
+                continue; // byte strings are outside the documented domain of the text formats
+            }
+            let law = jq::compile_full(&format!("({shape}) as $v | ($v | {trip}) == $v"), &["n"]).unwrap_or_else(|e| panic!("{sname}/{fname}: {e}"));
+            for &n in &sizes {
+                let key = format!("size: {sname} of {n} through {fname}");
+                c.case(h64(&key), n > 0, h64(&(sname, fname)));
+                if let Err(why) = jq::law_holds(&law, Val::Null, vec![Val::from(n as isize)]) {
+                    run.violation(&key, json!({"shape": shape, "n": n, "round_trip": trip, "why": why}));
+                }
+            }
+        }
+    }
+    run.family("container sizes", json!({"sizes": sizes, "shapes": shapes.len(), "formats": trips.len(), "cases": c.evaluations}));
+    run.bound_done(format!("{} shapes x {} sizes around length-encoding and buffer boundaries through CBOR, YAML, JSON, TOML", shapes.len(), sizes.len()));
+    run.add(c);
+
     // ---------------------------------------------------------- independent readers and the command line
     let c = ext::run_python(&run, "c14_readers.py", &[]);
     run.add(c);
